@@ -7,4 +7,6 @@ from excel2pycl.src.translators.abstract_translator import AbstractTranslator
 class PatternTokenTranslator(AbstractTranslator):
     @classmethod
     def translate(cls, token: PatternToken, excel: Excel, context: Context) -> str:
-        return f'self._regexp({token.value[0]})'
+        # a text literal like any other (the matched text includes its double quotes): as an operand it evaluates to exactly
+        # the original text; it is turned into a regular expression only where a criterion is built (LambdaTokenTranslator)
+        return repr(token.value[0][1:-1])
